@@ -2626,3 +2626,32 @@ for _p in ("C04",):
       r"match_prefix = re.compile(r'^\s*(?!lambda:)([a-z][a-z0-9\-_]*):').match",
       r"match_prefix = re.compile(r'^\s*(?!lambda:)([a-z][-a-z0-9_]*):').match",
       expect="silent")
+
+
+# ---- fix 3abdb1f: an empty static attribute value is not translated
+m("C10", "empty-attribute-translated", ZP,
+  """                if msgid is not missing and not (
+                    not msgid and isinstance(value, ast.Constant)
+                    and value.value == ''
+                ):
+                    value = nodes.Translate(msgid, value)""",
+  """                if msgid is not missing:
+                    value = nodes.Translate(msgid, value)""")
+m("C10", "attribute-never-translated-without-id", ZP,
+  """                if msgid is not missing and not (
+                    not msgid and isinstance(value, ast.Constant)
+                    and value.value == ''
+                ):
+                    value = nodes.Translate(msgid, value)""",
+  """                if msgid is not missing and msgid:
+                    value = nodes.Translate(msgid, value)""")
+m("C10", "refactor-empty-attribute-named-test", ZP,
+  """                if msgid is not missing and not (
+                    not msgid and isinstance(value, ast.Constant)
+                    and value.value == ''
+                ):
+                    value = nodes.Translate(msgid, value)""",
+  """                empty = not msgid and isinstance(value, ast.Constant) \\
+                    and value.value == ''
+                if msgid is not missing and not empty:
+                    value = nodes.Translate(msgid, value)""", expect="silent")
